@@ -227,6 +227,7 @@ type fnCtx struct {
 	structVars map[string]string // parameters of a modelled struct type -> that type
 	nilVars    map[string]bool   // … that are pointers the body compares with nil (Options)
 	consts     map[string]string // function-local constants -> their printed value
+	ints       map[string]bool   // locals / parameters known to be integers
 	brk     bool              // the innermost loop contains `break` (its body yields Step3)
 }
 
@@ -359,7 +360,7 @@ func trFunc(p *pkgInfo, fd *ast.FuncDecl, tg map[string]bool, externs [][2]strin
 			panic(r)
 		}
 	}()
-	c := &fnCtx{p: p, ranged: map[string]string{}, targets: tg, externs: map[string]bool{}, slices: map[string]bool{}, structVars: map[string]string{}, nilVars: map[string]bool{}, consts: map[string]string{}}
+	c := &fnCtx{p: p, ranged: map[string]string{}, targets: tg, externs: map[string]bool{}, slices: map[string]bool{}, structVars: map[string]string{}, nilVars: map[string]bool{}, consts: map[string]string{}, ints: map[string]bool{}}
 	var params []string
 	name := fd.Name.Name
 	generic := ""
@@ -412,6 +413,9 @@ func trFunc(p *pkgInfo, fd *ast.FuncDecl, tg map[string]bool, externs [][2]strin
 	for _, f := range fd.Type.Params.List {
 		for _, n := range f.Names {
 			lt := leanType(f.Type)
+			if id, ok := f.Type.(*ast.Ident); ok && id.Name == "int" {
+				c.ints[n.Name] = true
+			}
 			t := f.Type
 			if st, ok := t.(*ast.StarExpr); ok {
 				t = st.X
@@ -877,6 +881,12 @@ func (c *fnCtx) stmts(list []ast.Stmt, ind string) string {
 				if id, ok := ce.Fun.(*ast.Ident); ok && id.Name == "make" {
 					c.slices[names[i]] = true
 				}
+				if id, ok := ce.Fun.(*ast.Ident); ok && id.Name == "len" {
+					c.ints[names[i]] = true
+				}
+			}
+			if be, ok := rhs.(*ast.BinaryExpr); ok && (be.Op == token.SUB || be.Op == token.ADD || be.Op == token.MUL || be.Op == token.QUO) {
+				c.ints[names[i]] = true // (strings are never added in the translated fragment)
 			}
 		}
 		if len(names) == 1 {
@@ -940,6 +950,22 @@ func (c *fnCtx) stmts(list []ast.Stmt, ind string) string {
 	case *ast.BlockStmt:
 		return c.stmts(append(append([]ast.Stmt{}, s.List...), rest...), ind)
 	case *ast.RangeStmt:
+		if n, ok := s.X.(*ast.Ident); ok && c.ints[n.Name] && s.Value == nil {
+			// `for range n` / `for i := range n` over an integer: the three-clause loop `for i := 0; i < n; i++`
+			as := map[string]bool{}
+			assigned(s.Body.List, map[string]bool{}, as)
+			if as[n.Name] {
+				fnFail("the loop bound is assigned in the body")
+			}
+			c.fresh++
+			iv := fmt.Sprintf("i%d", c.fresh)
+			if id, ok := s.Key.(*ast.Ident); ok && id.Name != "_" {
+				iv = id.Name
+			} else {
+				iv = "i" // (the print of the three-clause loop, whose index is conventionally `i`)
+			}
+			return c.loop(iv, "(Int.toNat "+lid(n.Name)+")", "", s.Body.List, rest, ind, "")
+		}
 		if s.Tok != token.DEFINE {
 			fnFail("range without :=")
 		}
